@@ -427,6 +427,7 @@ func genC12(g *G) {
 }
 
 func genC11(g *G) {
+	genGenPow(g)
 	genWorkerV1(g)
 	// the v1 lane test on arbitrary planes and every n
 	rounds := 60
